@@ -45,7 +45,9 @@ EXTENDS Integers, Sequences, FiniteSets, TLC
 CONSTANTS Cfgs,       \* set of <<S, I, M>> : dt_sim, dt_imu, dt_mag in microseconds
           Horizons,   \* set of run lengths H (core.run(until = H))
           ChangeTo,   \* set of <<S, I, M>> a parameter change may install
-          MaxCh       \* number of parameter changes per run
+          MaxCh,      \* number of parameter changes per run
+          TieBudget,  \* number of exact double ties per run at which BOTH outcomes are explored (afterwards: publish); bounds the model only
+          ChangeBy    \* parameter changes happen within the first ChangeBy loop iterations (bounds the model only)
 
 VARIABLE sim
 
@@ -66,7 +68,7 @@ NoEv == [e |-> "none"]
 
 Start(S, I, M, H, par) ==
     [pc |-> "asleep", now |-> 0, wake |-> 0, S |-> S, I |-> I, M |-> M, H |-> H, par |-> par,
-     tls |-> 0, tli |-> 0, tlm |-> 0, dt |-> 0, age |-> 0, ver |-> 0, nch |-> 0, ev |-> NoEv,
+     tls |-> 0, tli |-> 0, tlm |-> 0, dt |-> 0, age |-> 0, ver |-> 0, nch |-> 0, nt |-> 0, ev |-> NoEv,
      \* history
      hAtt |-> -1, hImu |-> -1, hMag |-> -1,          \* last stamp per topic (-1: none yet)
      hpImu |-> -1, hpMag |-> -1,                      \* the stamp before that
@@ -96,13 +98,14 @@ PropS(s) ==
 ImuDecS(s) ==
     IF s.pc # "imu" THEN {} ELSE
     LET gap == s.now - s.tli  lim == s.I - EPS
-        pub == [s EXCEPT !.pc = "imu2", !.tli = s.now, !.hAtt = s.now,
-                         !.htie = (s.htie \/ (s.now # 0 /\ Tie(gap, lim))),
+        tie == s.now # 0 /\ Tie(gap, lim)
+        pub == [s EXCEPT !.pc = "imu2", !.tli = s.now, !.hAtt = s.now, !.nt = IF tie THEN s.nt + 1 ELSE s.nt,
+                         !.htie = (s.htie \/ tie),
                          !.ev = [e |-> "att", stamp |-> s.now, now |-> s.now, ver |-> s.ver, age |-> s.age]]
-        skip == [s EXCEPT !.pc = "mag", !.ev = [e |-> "skipimu"],
-                          !.htie = (s.htie \/ Tie(gap, lim)), !.hcI = (s.hcI \/ Tie(gap, lim))]
+        skip == [s EXCEPT !.pc = "mag", !.ev = [e |-> "skipimu"], !.nt = IF tie THEN s.nt + 1 ELSE s.nt,
+                          !.htie = (s.htie \/ tie), !.hcI = (s.hcI \/ tie)]
     IN (IF s.now = 0 \/ Pass(gap, lim, TRUE) THEN {pub} ELSE {}) \cup
-       (IF s.now # 0 /\ ~Pass(gap, lim, FALSE) THEN {skip} ELSE {})
+       (IF s.now # 0 /\ ~Pass(gap, lim, FALSE) /\ (tie => s.nt < TieBudget) THEN {skip} ELSE {})
 
 ImuPubS(s) ==
     IF s.pc # "imu2" THEN {} ELSE
@@ -114,15 +117,16 @@ ImuPubS(s) ==
 MagDecS(s) ==
     IF s.pc # "mag" THEN {} ELSE
     LET gap == s.now - s.tlm  lim == s.M - EPS
+        tie == s.now # 0 /\ Tie(gap, lim)
         pub == [s EXCEPT !.pc = "sleep", !.tlm = s.now, !.hMag = s.now, !.hpMag = s.hMag, !.hnMag = s.hnMag + 1,
-                         !.hcM = FALSE, !.htie = (s.htie \/ (s.now # 0 /\ Tie(gap, lim))),
+                         !.nt = IF tie THEN s.nt + 1 ELSE s.nt, !.hcM = FALSE, !.htie = (s.htie \/ tie),
                          !.ev = [e |-> "mag", stamp |-> s.now, now |-> s.now, ver |-> s.ver, age |-> s.age,
                                  sm |-> s.par.sm, ms |-> s.par.ms, decl |-> s.par.decl, incl |-> s.par.incl,
                                  gap |-> IF s.hMag < 0 THEN -1 ELSE s.now - s.hMag, clean |-> ~s.hcM]]
-        skip == [s EXCEPT !.pc = "sleep", !.ev = [e |-> "skipmag"],
-                          !.htie = (s.htie \/ Tie(gap, lim)), !.hcM = (s.hcM \/ Tie(gap, lim))]
+        skip == [s EXCEPT !.pc = "sleep", !.ev = [e |-> "skipmag"], !.nt = IF tie THEN s.nt + 1 ELSE s.nt,
+                          !.htie = (s.htie \/ tie), !.hcM = (s.hcM \/ tie)]
     IN (IF s.now = 0 \/ Pass(gap, lim, TRUE) THEN {pub} ELSE {}) \cup
-       (IF s.now # 0 /\ ~Pass(gap, lim, FALSE) THEN {skip} ELSE {})
+       (IF s.now # 0 /\ ~Pass(gap, lim, FALSE) /\ (tie => s.nt < TieBudget) THEN {skip} ELSE {})
 
 SleepS(s) ==
     IF s.pc # "sleep" THEN {} ELSE
@@ -138,7 +142,7 @@ Silent(ev) == ev.e \in {"wake", "nosim", "skipimu", "skipmag"}
 
 Init == \E c \in Cfgs, H \in Horizons : sim = Start(c[1], c[2], c[3], H, Par0)
 Next == \/ \E n \in NodeSucc(sim) : sim' = n
-        \/ /\ sim.nch < MaxCh /\ sim.now > 0
+        \/ /\ sim.nch < MaxCh /\ sim.now > 0 /\ sim.ver <= ChangeBy
            /\ \E c \in ChangeTo : <<c[1], c[2], c[3]>> # <<sim.S, sim.I, sim.M>> /\ \E n \in ChangeS(sim, c, Par1) : sim' = n
 Spec == Init /\ [][Next]_sim
 
@@ -196,5 +200,5 @@ CfgsQuick == { <<S, I, M>> \in Ss \X {2500, 5000, 7500} \X {5000, 7500, 12500, 2
 CfgsThorough == { <<S, I, M>> \in {500, 1000, 2500, 4000, 5000} \X {2500, 5000, 7500, 10000} \X
                                  {2500, 5000, 7500, 12500, 20000, 50000} : TRUE }
 ChangeQuick == { <<2500, 5000, 7500>>, <<5000, 5000, 20000>>, <<1000, 2500, 12500>> }
-ChangeThorough == ChangeQuick \cup { <<2500, 7500, 5000>>, <<4000, 10000, 50000>>, <<500, 2500, 2500>> }
+ChangeThorough == ChangeQuick \cup { <<4000, 10000, 50000>>, <<500, 2500, 2500>> }
 =============================================================================
